@@ -138,6 +138,13 @@ impl C11 {
     /// `now`: the simulated clock when the instruction is one that settles the pool's rewards up to the present
     /// (the shadow ledger keeps its own time per pool and does not rely on the timestamp the program stored)
     fn accrue(&mut self, wk: &Pubkey, pre: &Pool, post: &Pool, pre_l: &crate::rt::Ledger, now: Option<u64>, cov: &mut Coverage) {
+        for i in 0..3 {
+            if pre.rewards[i].initialized() && post.rewards[i].growth_global_x64 < pre.rewards[i].growth_global_x64 {
+                cov.probe("reward_growth_accumulator_wrapped");
+            } else if post.rewards[i].growth_global_x64 >= 1u128 << 127 {
+                cov.probe("reward_growth_accumulator_in_top_half");
+            }
+        }
         let (t0, t1) = match now {
             Some(n) => (self.last.get(wk).copied().unwrap_or(pre.reward_last_updated_timestamp), n),
             None => (pre.reward_last_updated_timestamp, post.reward_last_updated_timestamp),
